@@ -48,6 +48,14 @@ theorem Rep.guard {e : List Char} {bs : List UInt8} (h : Rep e bs) : Tok (guardT
     rw [h1] at h
     exact h.replace_space
 
+/-- … and it is still a piece sequence for them -/
+theorem Rep.guard_rep {e : List Char} {bs : List UInt8} (h : Rep e bs) : Rep (guardTailingNoEol e) bs := by
+  rcases guard_cases e with ⟨_, h2⟩ | ⟨body, h1, h2⟩
+  · rw [h2]; exact h
+  · rw [h2]
+    rw [h1] at h
+    exact h.replace_space_rep
+
 theorem written_eq (m : Mode) (isOther : Char → Bool) (t : List UInt8) :
     written m isOther t = ((written m isOther t).1, (written m isOther t).2) := rfl
 
